@@ -305,9 +305,10 @@ def load_known():
 # evidence
 
 def write_evidence(pid, tier, seed, level, coverage, wall, violations, assumptions=()):
-    os.makedirs(EVID, exist_ok=True)
+    evid = EVID if repo_dir() == "/repo" else os.path.join(WORK, "evidence" + work_tag())
+    os.makedirs(evid, exist_ok=True)
     ev = {"property_id": pid, "tier": tier, "seed": int(seed), "level": level, "coverage": coverage,
           "assumptions": list(assumptions), "wall_s": round(wall, 2), "violations": int(violations)}
-    with open(os.path.join(EVID, pid + ".json"), "w") as f:
+    with open(os.path.join(evid, pid + ".json"), "w") as f:
         json.dump(ev, f, indent=1)
     return ev
